@@ -609,7 +609,7 @@ def generate(rng, tier):
                 cases.append(gen_chain(rng, n, mode % 4, mode))
         for _ in range(8):
             cases.append(gen_many_resets(rng, rng.range(260, 400)))
-    nrand = 440 if quick else 12000
+    nrand = 560 if quick else 12000
     top = 48 if quick else 65
     for i in range(nrand):
         k = rng.below(40)
